@@ -175,6 +175,19 @@ pub fn concrete_ops() -> Vec<Op> {
         ValueAppend(0, Lit::U(3)),
         Read(0, e()),
         Read(1, k("b")),
+        ObjIndexMutSet(0, e(), "a".into(), Lit::U(9)),
+        ObjIndexMutSet(0, e(), "fresh".into(), l("[0]")),
+        ArrIndexMutSet(0, e(), 0, Lit::Null),
+        ArrIndexMutSet(0, e(), 3, Lit::Null),
+        EntryOrInsertWithKey(0, e(), "kk".into()),
+        ValuesMutSet(0, e(), Lit::U(1)),
+        IntoIterMixed(0, 1, 1, 1),
+        ObjProbe(0, e(), "a".into()),
+        ObjProbe(1, e(), "nope".into()),
+        ArrProbe(0, e(), 1, 0, 2),
+        ArrProbe(0, e(), 3, 1, 4),
+        ValProbe(0, e(), "b".into(), 1),
+        ValProbe(1, k("b"), "c".into(), 0),
     ];
     // the same array/object operations on register 1 (so that aliasing between 0 and 1 shows)
     v.extend(vec![Push(1, e(), Lit::U(4)), Pop(1, e()), ObjInsert(1, e(), "a".into(), Lit::U(2)), ObjRemove(1, e(), "a".into()), Clear(1, e()), ObjClear(1, e()), SetSub(1, k("a"), Lit::Null)]);
